@@ -117,6 +117,41 @@ pub fn corpus(thorough: bool) -> Vec<Program> {
             ],
         });
     }
+    // examples on a content and on its body schema (two maps meet), >= 2 entries each
+    out.push(single(vec![
+        Stmt::Let {
+            anns: vec!["examples: {s3: u3, s1: u1, s2: u2}".into()],
+            name: "body".into(),
+            params: vec![],
+            body: obj(vec![prop("p", E::Prim(Prim::Num))]),
+        },
+        Stmt::Res(rel(
+            uri_lit(&["ex"]),
+            vec![xfer(
+                Method::Get,
+                E::Ann(vec![], Box::new(content(var("body"))), Some("examples: {c2: v2, c1: v1, s1: w1}".into())),
+            )],
+        )),
+    ]));
+    // explicit references that nothing uses, in several modules
+    out.push(Program {
+        modules: vec![
+            Module {
+                name: "main.oal".into(),
+                stmts: vec![
+                    Stmt::Use("errors.oal".into(), Some("e".into())),
+                    Stmt::Use("paging.oal".into(), Some("p".into())),
+                    Stmt::Use("extra.oal".into(), None),
+                    let_("@item", obj(vec![prop("id", E::Prim(Prim::Num))])),
+                    let_("@unused", obj(vec![prop("u", E::Prim(Prim::Str))])),
+                    Stmt::Res(rel(uri_lit(&["items"]), vec![xfer(Method::Get, content(arr(var("@item"))))])),
+                ],
+            },
+            Module { name: "errors.oal".into(), stmts: vec![let_("@problem", obj(vec![prop("title", E::Prim(Prim::Str))])), let_("@violation", obj(vec![prop("field", E::Prim(Prim::Str))]))] },
+            Module { name: "paging.oal".into(), stmts: vec![let_("@page", obj(vec![prop("n", E::Prim(Prim::Num))])), let_("@cursor", E::Prim(Prim::Str))] },
+            Module { name: "extra.oal".into(), stmts: vec![let_("@extra", obj(vec![prop("x", E::Prim(Prim::Bool))]))] },
+        ],
+    });
     // several implicit components that only an explicit component refers to (they are found
     // in a later round of whatever collects the components that are in use)
     {
@@ -464,7 +499,7 @@ impl Engine for C06 {
         let t = tier == Tier::Thorough;
         let mut v = vec![
             Phase::new("all choice tapes with <= 2 deviations per corpus program", json!({"kind":"tapes","thorough":t})),
-            Phase::new("all ordered pairs of corpus programs compiled in one process", json!({"kind":"pairs","thorough":t})),
+            Phase::new("ordered pairs of corpus programs compiled in one process (first: every 4th program and the 12 built for this property, thorough every one; second: every one)", json!({"kind":"pairs","thorough":t})),
             Phase::new("free-running confirmation: oal-cli in 6 fresh processes per program (not the deciding step)", json!({"kind":"cli","thorough":t})).workers(8),
         ];
         v.push(Phase::new(
@@ -508,7 +543,10 @@ impl Engine for C06 {
             }
             "pairs" => {
                 let n = texts.len();
-                for i in 0..n {
+                // first program (compiled before the subject): every 4th one (thorough: every
+                // one) and the programs built for this property; second program: every one
+                let step = if thorough { 1 } else { 4 };
+                for i in (0..n).filter(|i| i % step == 0 || *i + 12 >= n) {
                     for j in 0..n {
                         let idx = (i * n + j) as u64;
                         if !sink.mine(idx) {
@@ -545,7 +583,7 @@ impl Engine for C06 {
                 let step = if thorough { 4 } else { 8 };
                 let n = texts.len();
                 // every step-th program and always the two programs built for this property
-                for (i, t) in texts.iter().enumerate().filter(|(i, _)| i % step == 0 || *i + 3 + LARGE >= n) {
+                for (i, t) in texts.iter().enumerate().filter(|(i, _)| i % step == 0 || *i + 5 + LARGE >= n) {
                     if sink.expired() {
                         return;
                     }
@@ -589,7 +627,7 @@ impl Engine for C06 {
         }
     }
     fn rule(&self) -> String {
-        "corpus = fragment programs chosen so that every map of the pipeline holds >= 2 entries (examples, tags, modules, parameters, declarations, references, ranges) plus one program with >= 3 entries everywhere; per program a stateless search over all choice tapes (orders of every hash-map iteration met through the ChoiceMap hook; all n! orders for n <= 4; <= 2 deviations from the canonical order); all ordered pairs (thorough: triples) of corpus programs compiled in one process, last output compared with the stand-alone output; one large program (900 / 1500 declarations, then an implicit component) under <= 1 deviation at a spread of its choice points; oal-cli histories over {compile to out.yaml with a base, edit main.oal, edit the imported defs.oal, edit base.yaml, delete the target} of <= 4 (thorough 5) operations followed by a compile, modification times set by a logical clock, the target compared after every compile with the result of compiling the same sources in a fresh directory; oracle: byte-identical YAML. Non-trivial = a document was produced; distinct = distinct documents".into()
+        "corpus = fragment programs chosen so that every map of the pipeline holds >= 2 entries (examples, tags, modules, parameters, declarations, references, ranges) plus one program with >= 3 entries everywhere; per program a stateless search over all choice tapes (orders of every hash-map iteration met through the ChoiceMap hook; all n! orders for n <= 4; <= 2 deviations from the canonical order); ordered pairs of corpus programs compiled in one process (quick: the first one from every 4th program and the 12 programs built for this property, the second one from the whole corpus; thorough: all pairs and the triples of a 40-program sub-corpus), last output compared with the stand-alone output; one large program (900 / 1500 declarations, then an implicit component) under <= 1 deviation at a spread of its choice points; oal-cli histories over {compile to out.yaml with a base, edit main.oal, edit the imported defs.oal, edit base.yaml, delete the target} of <= 4 (thorough 5) operations followed by a compile, modification times set by a logical clock, the target compared after every compile with the result of compiling the same sources in a fresh directory; oracle: byte-identical YAML. Non-trivial = a document was produced; distinct = distinct documents".into()
     }
     fn assumptions(&self) -> Vec<String> {
         vec![
